@@ -394,19 +394,30 @@ def run(c):
                "Definition expected (sites : list (list (sfacts * list (option bool)))) (d : dexpr) (j : nat) : option (list Z * bool) :=",
                "  option_map (fun f => predict f (nth j sites []) 0%Z) (compile gen_tables d)."]
 
-        def sfacts(i, j):
-            s = sites[(i, j)]
+        def base(i):
+            """everything about site i that does not depend on the probe column (all but the lines and the probe name)"""
+            s = sites[(i, 0)]
             iv = lambda v: None if v["int"] is None else int(v["int"])
             rest = "[" + "; ".join("(%s, %s)" % (copt(v["size"]), copt(iv(v))) for v in s["rest"]) + "]"
-            return "{| lx := %s; ly := %s; lm := %s; sx := %s; sy := %s; ix := %s; iy := %s; tx := %s; ty := %s; tm := %s; rest := %s |}" % (
-                cz(s["line_x"]), cz(s["line_y"]), cz(s["line_m"]), copt(s["x"]["size"]), copt(s["y"]["size"]), copt(iv(s["x"])), copt(iv(s["y"])),
-                cstr(s["text_x"]), cstr(s["text_y"]), cstr(s["text_m"]), rest)
+            return ("Definition site_%d (a b c : Z) (pj : string) : sfacts := {| lx := a; ly := b; lm := c; sx := %s; sy := %s; ix := %s; iy := %s; "
+                    "tx := %s; ty := %s; tm := pj ++ %s; rest := %s |}.") % (
+                i, copt(s["x"]["size"]), copt(s["y"]["size"]), copt(iv(s["x"])), copt(iv(s["y"])),
+                cstr(s["text_x"]), cstr(s["text_y"]), cstr(s["text_m"][2:]), rest)
+
+        def sfacts(i, j):
+            s, s0 = sites[(i, j)], sites[(i, 0)]
+            pj = "p%d" % j
+            same = all(s[k] == s0[k] for k in ("x", "y", "rest", "text_x", "text_y"))
+            if not same or not s["text_m"].startswith(pj + "(") or s["text_m"][len(pj):] != s0["text_m"][2:]:
+                raise ValueError("the facts of site %d differ between probe columns 0 and %d" % (i, j))
+            return "site_%d %s %s %s %s" % (i, cz(s["line_x"]), cz(s["line_y"]), cz(s["line_m"]), cstr(pj))
 
         def avrow(i):
             return "[" + "; ".join("None" if atomv[a][i] is None else "Some " + coq_bool(atomv[a][i]) for a in sorted(atomv)) + "]"
 
         # the measured verdicts of the atomic predicates depend on the site shape only, not on the probe column
-        sites_src = "\n".join(pre) + "\nDefinition site_facts : list (list sfacts) := [\n" + ";\n".join(
+        texts = "\n".join(base(i) for i in range(N))
+        sites_src = "\n".join(pre) + "\n" + texts + "\nDefinition site_facts : list (list sfacts) := [\n" + ";\n".join(
             "[" + ";\n ".join(sfacts(i, j) for i in range(N)) + "]" for j in range(W)) + "].\n" + \
             "Definition atom_verdicts : list (list (option bool)) := [\n" + ";\n".join(avrow(i) for i in range(N)) + "].\n" + \
             "Definition sites : list (list (sfacts * list (option bool))) := map (fun l => combine l atom_verdicts) site_facts.\n"
